@@ -1,5 +1,6 @@
 from __future__ import annotations
 
+import dataclasses
 import pathlib
 import typing as ty
 
@@ -56,6 +57,18 @@ class _PintParser(fp.Parser[PintRootBlock, ParserConfig]):
         if self._diskcache is None:
             return super().parse_file(path)
         content, _basename = self._diskcache.load(path, super().parse_file)
+        opening = getattr(content.parsed_source, "opening", None)
+        if isinstance(opening, fp.BOF) and opening.path != path:
+            # The cache entry is found by the content of the file: it can have been
+            # written for an identical file somewhere else, and the targets of the
+            # @import lines are located relative to the path it carries.
+            content = dataclasses.replace(
+                content,
+                parsed_source=dataclasses.replace(
+                    content.parsed_source,
+                    opening=dataclasses.replace(opening, path=path),
+                ),
+            )
         return content
 
 
